@@ -19,10 +19,11 @@ func TestMain(m *testing.M) { vstat.Main(m) }
 type Req struct {
 	Authority string      `json:"authority"`
 	Path      string      `json:"path"`
-	Lines     [][2]string `json:"lines"`            // client-supplied forwarding header lines
-	Scheme    string      `json:"scheme,omitempty"` // HTTP/2 only: the :scheme the client claims
-	HostHdr   string      `json:"host_hdr,omitempty"` // HTTP/2 only: a "host" field next to :authority (RFC 9113 8.3.1: :authority is what the client addressed)
-	Fillers   int         `json:"fillers,omitempty"`  // header fields with never-seen names ahead of the forwarding lines
+	Lines     [][2]string `json:"lines"`               // client-supplied forwarding header lines
+	Scheme    string      `json:"scheme,omitempty"`    // HTTP/2 only: the :scheme the client claims
+	HostHdr   string      `json:"host_hdr,omitempty"`  // HTTP/2 only: a "host" field next to :authority (RFC 9113 8.3.1: :authority is what the client addressed)
+	Fillers   int         `json:"fillers,omitempty"`   // header fields with never-seen names ahead of the forwarding lines
+	ConnLine  string      `json:"conn_line,omitempty"` // HTTP/1.1: a Connection field that nominates forwarding header names as hop-by-hop
 }
 
 type Script struct {
@@ -34,6 +35,10 @@ type Script struct {
 	// SplitHello: the ClientHello is spread over two TLS records: the handshake completes, the fingerprint
 	// injectors fail for this connection. The forwarding headers have nothing to do with that.
 	SplitHello bool `json:"split_hello,omitempty"`
+	// Preamble: octets the client sends ahead of its ClientHello, naming an address of its choice in the manner of the
+	// PROXY protocol (v1 text line, v2 binary header). Nothing in the statement lets a client choose the address the
+	// proxy reports: either the connection is refused or the peer address stays the real one.
+	Preamble string `json:"preamble,omitempty"`
 }
 
 var col = vstat.New("C09", "c09.forwarding")
@@ -51,10 +56,13 @@ func variant(t *rapid.T, n string) string {
 func gen(t *rapid.T) Script {
 	var s Script
 	s.Proto = rapid.SampledFrom([]string{"h2", "http/1.1", "none"}).Draw(t, "proto")
-	s.PeerIP = rapid.SampledFrom([]string{"198.51.100.7", "10.1.2.3", "2001:db8::7", "::1", "::ffff:203.0.113.9", "fe80::1", "255.255.255.255"}).Draw(t, "ip")
+	s.PeerIP = rapid.SampledFrom([]string{"198.51.100.7", "10.1.2.3", "2001:db8::7", "::1", "::ffff:203.0.113.9", "fe80::1", "255.255.255.255", "127.0.0.1", "192.168.1.9", "fd00::5"}).Draw(t, "ip")
 	s.PeerPort = rapid.IntRange(1, 65535).Draw(t, "port")
 	s.PreserveHost = rapid.Bool().Draw(t, "ph")
 	s.SplitHello = rapid.IntRange(0, 5).Draw(t, "split") == 0
+	if !s.SplitHello && rapid.IntRange(0, 7).Draw(t, "preamble") == 0 {
+		s.Preamble = rapid.SampledFrom([]string{"proxy-v1-tcp4", "proxy-v1-tcp4", "proxy-v1-tcp6", "proxy-v1-unknown", "proxy-v2"}).Draw(t, "preambleKind")
+	}
 	n := rapid.IntRange(1, 3).Draw(t, "n")
 	for i := 0; i < n; i++ {
 		r := Req{Path: fmt.Sprintf("/f%d", i)}
@@ -71,7 +79,7 @@ func gen(t *rapid.T) Script {
 		for j := 0; j < nl; j++ {
 			switch rapid.IntRange(0, 3).Draw(t, "kind") {
 			case 0:
-				v := rapid.SampledFrom([]string{"203.0.113.1", "203.0.113.1, 70.41.3.18", "unknown", "", "::1", " 1.1.1.1 ,2.2.2.2", "attacker", "long"}).Draw(t, "xff")
+				v := rapid.SampledFrom([]string{"203.0.113.1", "203.0.113.1, 70.41.3.18", "unknown", "", "::1", " 1.1.1.1 ,2.2.2.2", "attacker", "long", "203.0.113.1, , 70.41.3.18", "203.0.113.1,", ",", "\"[2001:db8::1]\", 1.2.3.4"}).Draw(t, "xff")
 				if v == "long" {
 					// a request that has been through many proxies already (or says so)
 					var hops []string
@@ -89,9 +97,27 @@ func gen(t *rapid.T) Script {
 				r.Lines = append(r.Lines, [2]string{variant(t, "X-Forwarded-Proto"), rapid.SampledFrom([]string{"http", "https", "ftp", "HTTPS", ""}).Draw(t, "xfp")})
 			}
 		}
+		if s.Proto != "h2" && rapid.IntRange(0, 3).Draw(t, "connline") == 0 {
+			r.ConnLine = rapid.SampledFrom([]string{"keep-alive, X-Forwarded-For", "x-forwarded-for", "X-Forwarded-For, X-Forwarded-Host, X-Forwarded-Proto", "keep-alive, Forwarded", "X-Forwarded-Proto"}).Draw(t, "connlineV")
+		}
 		s.Reqs = append(s.Reqs, r)
 	}
 	return s
+}
+
+func preambleBytes(kind string) []byte {
+	switch kind {
+	case "proxy-v1-tcp4":
+		return []byte("PROXY TCP4 203.0.113.77 192.0.2.1 51234 443\r\n")
+	case "proxy-v1-tcp6":
+		return []byte("PROXY TCP6 2001:db8::77 2001:db8::1 51234 443\r\n")
+	case "proxy-v1-unknown":
+		return []byte("PROXY UNKNOWN\r\n")
+	case "proxy-v2":
+		// signature, version 2 / PROXY, TCP over IPv4, 12 address octets: 203.0.113.77:51234 -> 192.0.2.1:443
+		return append([]byte("\r\n\r\n\x00\r\nQUIT\n"), 0x21, 0x11, 0x00, 0x0c, 203, 0, 113, 77, 192, 0, 2, 1, 0xc8, 0x22, 0x01, 0xbb)
+	}
+	return nil
 }
 
 func flatten(lines []string) []string {
@@ -119,7 +145,7 @@ func exec(t *testing.T, s Script) *vstat.Violation {
 		if s.SplitHello {
 			cc, err = rig.ConnectSplitFrom(p, alpn, 40, peer)
 		} else {
-			cc, err = rig.Connect(p, alpn, peer)
+			cc, err = rig.ConnectPreamble(p, alpn, peer, preambleBytes(s.Preamble))
 		}
 		if err != nil {
 			hsErr = err
@@ -139,6 +165,9 @@ func exec(t *testing.T, s Script) *vstat.Violation {
 			if r.HostHdr != "" {
 				hdrs = append(append([][2]string{}, r.Lines...), [2]string{"host", r.HostHdr})
 			}
+			if r.ConnLine != "" {
+				hdrs = append(append([][2]string{}, hdrs...), [2]string{"Connection", r.ConnLine})
+			}
 			ex := cc.Do(rig.ReqSpec{Method: "GET", Path: r.Path, Authority: r.Authority, Headers: hdrs, Scheme: r.Scheme})
 			if ex.Err != "" || ex.Status != 200 {
 				errs = append(errs, fmt.Sprintf("%s: %d %s", r.Path, ex.Status, ex.Err))
@@ -147,6 +176,11 @@ func exec(t *testing.T, s Script) *vstat.Violation {
 		rig.Wait()
 		reqs = p.Backend.Requests()
 	})
+	if msg == "" && hsErr != nil && s.Preamble != "" && len(reqs) == 0 {
+		// the proxy refused a connection that does not begin with a ClientHello: nothing was forwarded, nothing was claimed
+		col.Case(fmt.Sprintf("%+v", s), true, s, "client-names-an-address-ahead-of-its-hello:refused", "preamble:"+s.Preamble)
+		return nil
+	}
 	if msg != "" || hsErr != nil || len(reqs) != len(s.Reqs) {
 		col.Class("discard", 1)
 		col.Discard()
@@ -213,6 +247,10 @@ func exec(t *testing.T, s Script) *vstat.Violation {
 			nt = true
 			cl = append(cl, "h2-host-field-differs-from-authority", "client-lines-after-20+-distinct-header-names:h2", "fingerprint-injectors-fail-for-this-connection")
 		}
+		if r.ConnLine != "" && len(r.Lines) > 0 {
+			nt = true
+			cl = append(cl, "forwarding-header-names-nominated-in-connection")
+		}
 		if r.Fillers >= 20 && len(r.Lines) > 0 {
 			cl = append(cl, "client-lines-after-20+-distinct-header-names:"+s.Proto)
 		}
@@ -238,6 +276,6 @@ func dedup(in []string) []string {
 
 func TestForwarding(t *testing.T) {
 	rig.Certs()
-	col.Mandatory("proto:h2", "proto:http/1.1", "proto:none", "peer:ipv6", "peer:ipv4", "client-sent:X-Forwarded-For", "client-sent:Forwarded", "client-sent:X-Forwarded-Host", "client-sent:X-Forwarded-Proto", "preserve:true", "preserve:false", "h2-scheme-http", "h2-host-field-differs-from-authority")
+	col.Mandatory("proto:h2", "proto:http/1.1", "proto:none", "peer:ipv6", "peer:ipv4", "client-sent:X-Forwarded-For", "client-sent:Forwarded", "client-sent:X-Forwarded-Host", "client-sent:X-Forwarded-Proto", "preserve:true", "preserve:false", "h2-scheme-http", "h2-host-field-differs-from-authority", "client-names-an-address-ahead-of-its-hello:refused", "forwarding-header-names-nominated-in-connection")
 	vstat.Run(t, vstat.Spec[Script]{Col: col, Quick: 2500, Thorough: 60000, Gen: gen, Exec: func(s Script) *vstat.Violation { return exec(t, s) }})
 }
